@@ -63,9 +63,12 @@ def Buf.after (b : Buf) : Text := b.text.drop b.cur
     multiple cursors — `multiple_cursor_positions`). -/
 def textChanged (b : Buf) : Buf := { b with sel := none, multi := [] }
 
-/-- `_set_text(value)`: overwrite the working line; returns whether it changed. -/
-def rawSetText (b : Buf) (v : Text) : Buf × Bool :=
-  ({ b with lines := b.lines.set b.idx v }, v != b.text)
+/-- `_set_text(v)` + `_set_cursor_position(c)` + the change events: when the text differs from the
+    old one, `_text_changed()` runs and `history_search_text` is reset. -/
+def writeText (b : Buf) (v : Text) (c : Nat) : Buf :=
+  if v != b.text then
+    { textChanged { b with lines := b.lines.set b.idx v, cur := c } with hsearch := none }
+  else { b with lines := b.lines.set b.idx v, cur := c }
 
 /-- `Buffer.cursor_position = value`: clamped to `0 .. len(text)`. -/
 def setCursor (b : Buf) (v : Int) : Buf :=
@@ -76,10 +79,7 @@ def setCursor (b : Buf) (v : Int) : Buf :=
 /-- `Buffer.text = value`: cursor clamp first, then the read-only check, then the change. -/
 def setText (b : Buf) (v : Text) : Buf × Outcome :=
   let b1 := if b.cur > v.length then setCursor b v.length else b
-  if b1.readOnly then (b1, .readOnly)
-  else
-    let (b2, changed) := rawSetText b1 v
-    if changed then ({ textChanged b2 with hsearch := none }, .ok) else (b2, .ok)
+  if b1.readOnly then (b1, .readOnly) else (writeText b1 v b1.cur, .ok)
 
 /-- `Buffer.set_document(Document(t, c), bypass_readonly)`.
     The `Document` exists already, so `c ≤ len t` was asserted by its constructor:
@@ -87,11 +87,7 @@ def setText (b : Buf) (v : Text) : Buf × Outcome :=
 def setDocument (b : Buf) (t : Text) (c : Int) (bypass : Bool) : Buf × Outcome :=
   if c > (t.length : Int) then (b, .assertion)
   else if !bypass && b.readOnly then (b, .readOnly)
-  else
-    let (b1, changed) := rawSetText b t
-    let b2 := { b1 with cur := (max c 0).toNat }
-    let b3 := if changed then { textChanged b2 with hsearch := none } else b2
-    (b3, .ok)
+  else (writeText b t (max c 0).toNat, .ok)
 
 /-- `Buffer.working_index = value` -/
 def setWorkingIndex (b : Buf) (i : Nat) : Buf × Outcome :=
